@@ -615,3 +615,136 @@ def rule_kwargs_namespace(db: ProgramDB) -> List[Instance]:
     if len(out) < 6:
         raise AnalysisError("fewer carriers of user keyword arguments than confirmed by reading")
     return out
+
+
+# ---------------------------------------------------------------------------------- COLLECTION-TABLE
+def rule_collection_table(db: ProgramDB) -> List[Instance]:
+    """Which objects are collections of values and which are single values is one table, `is_iterable`: it decides whether a
+    supplied domain is filtered member by member or is a domain of one value (symbolic_new, Variable._update_domain_), and whether
+    a flattened value is spread.  The table is: has `__iter__`, and is not a string / bytes / a class.  Decided as a truth table of
+    the returned expression over its atoms: it has to be exactly `iter and not excluded` whatever the other atoms say - an object
+    that is merely indexable (the old sequence protocol `__getitem__`, which iter() would accept too) is ONE value."""
+    from ..boolexpr import eval_bool
+    import itertools
+    out = []
+    fn = db.fn("utils:is_iterable")
+    p = fn.positional_params[0]
+    rets = [n for n in own_nodes(fn.node) if isinstance(n, ast.Return)]
+    if len(rets) != 1 or rets[0].value is None:
+        raise AnalysisError("is_iterable: expected one returned expression")
+    e = rets[0].value
+    atoms: List[str] = []
+    excluded: Set[str] = set()
+
+    def atom_of(x):
+        a = None
+        if isinstance(x, ast.Call) and dotted(x.func) == "hasattr" and len(x.args) == 2 and unparse(x.args[0]) == p and isinstance(x.args[1], ast.Constant):
+            a = "iter" if x.args[1].value == "__iter__" else f"has:{x.args[1].value}"
+        elif isinstance(x, ast.Call) and dotted(x.func) == "isinstance" and len(x.args) == 2 and unparse(x.args[0]) == p:
+            names = [unparse(t) for t in (x.args[1].elts if isinstance(x.args[1], ast.Tuple) else [x.args[1]])]
+            if any(n.split(".")[-1] in ("Iterable",) for n in names) and len(names) == 1:
+                a = "iter"
+            else:
+                excluded.update(n.split(".")[-1] for n in names)
+                a = "excluded"
+        elif isinstance(x, (ast.Call, ast.Name, ast.Attribute, ast.Compare)):
+            a = f"other:{unparse(x)}"
+        if a is not None and a not in atoms:
+            atoms.append(a)
+        return a
+
+    class _Any(dict):
+        def __missing__(self, k):
+            return True
+    eval_bool(e, atom_of, _Any())
+    eval_bool(e, atom_of, {a: False for a in atoms} if atoms else {})
+    if "iter" not in atoms:
+        out.append(inst("COLLECTION-TABLE", VIOLATION, fn, "is_iterable[table]", f"`{unparse(e)[:100]}` does not ask for `__iter__`", line=rets[0].lineno))
+        return out
+    bad = None
+    for vals in itertools.product([False, True], repeat=len(atoms)):
+        env = dict(zip(atoms, vals))
+        got = bool(eval_bool(e, atom_of, env))
+        want = env["iter"] and not env.get("excluded", False)
+        if got != want:
+            bad = (env, got)
+            break
+    out.append(inst("COLLECTION-TABLE", VIOLATION if bad else HOLDS, fn, "is_iterable[table]",
+                    "a collection is what has `__iter__` and is not an excluded scalar type, whatever else holds" if not bad else
+                    f"`{unparse(e)[:120]}` answers {bad[1]} for {', '.join(k + '=' + str(v) for k, v in bad[0].items())}: "
+                    + ("an object that is not iterable by `__iter__` (an indexable record, a class with `__getitem__` only) is taken for a collection of values - given as a "
+                       "domain it is no longer a domain of one value but is spread into what its `[0], [1], …` return, and the type filter runs over those"
+                       if bad[1] else "an iterable is taken for a single value: a supplied domain is not filtered member by member"), line=rets[0].lineno))
+    need = {"str", "type", "bytes", "bytearray"}
+    out.append(inst("COLLECTION-TABLE", HOLDS if need <= excluded else VIOLATION, fn, "is_iterable[strings and classes are values]",
+                    f"excluded: {sorted(excluded)}" if need <= excluded else
+                    f"{sorted(need - excluded)} no longer excluded: a string value (a field constraint, a flattened element) is spread into its characters / a class into nothing",
+                    line=rets[0].lineno))
+    return out
+
+
+# ---------------------------------------------------------------------------------- ARG-NOT-MUTATED
+_MUTATORS = ("append", "extend", "insert", "pop", "remove", "sort", "clear", "update", "setdefault", "reverse", "popitem", "add", "discard")
+_FRESH = ("list", "dict", "set", "tuple", "copy", "deepcopy", "sorted")
+
+
+def rule_arg_not_mutated(db: ProgramDB) -> List[Instance]:
+    """What the user hands to the functions that build a query - the list of selected variables, a domain, a dict of field values -
+    stays the user's: a query-building function that rewrites such a collection in place (a predicate-form term replaced by its
+    variable, an item appended) changes what the caller passes to the NEXT query built from the same object.  Path rule: wherever
+    a parameter (not *args / **kwargs, which Python builds per call) is stored into by subscript or a mutating method, every path
+    from the function entry to that statement passes an assignment that rebinds the name to a fresh collection."""
+    from .lazy import CONSTRUCTION_FUNCS
+    from ..cfg import CFG
+    out = []
+    n_fn = 0
+    for q in CONSTRUCTION_FUNCS:
+        fn = db.fn(q, required=False)
+        if fn is None or fn.module not in ("entity", "predicate"):
+            continue
+        n_fn += 1
+        a = fn.node.args
+        params = {x.arg for x in a.posonlyargs + a.args + a.kwonlyargs} - {"self", "cls"}
+        muts = []
+        for n in own_nodes(fn.node):
+            if isinstance(n, (ast.Assign, ast.AugAssign)):
+                for t in (n.targets if isinstance(n, ast.Assign) else [n.target]):
+                    if isinstance(t, ast.Subscript) and isinstance(t.value, ast.Name) and t.value.id in params:
+                        muts.append((t.value.id, n))
+            elif isinstance(n, ast.Delete):
+                for t in n.targets:
+                    if isinstance(t, ast.Subscript) and isinstance(t.value, ast.Name) and t.value.id in params:
+                        muts.append((t.value.id, n))
+            elif isinstance(n, ast.Call) and isinstance(n.func, ast.Attribute) and n.func.attr in _MUTATORS and isinstance(n.func.value, ast.Name) \
+                    and n.func.value.id in params:
+                muts.append((n.func.value.id, n))
+        if not muts:
+            out.append(inst("ARG-NOT-MUTATED", HOLDS, fn, f"{fn.short}[arguments]", "no parameter is written into"))
+            continue
+        cfg = CFG(fn)
+        for name, node in muts:
+            st = node
+            while not isinstance(st, ast.stmt):
+                st = db.parent(st)
+            goal = {nd.id for nd in cfg.nodes if nd.ast is st or (nd.stmt is st and nd.kind in ("stmt", "test", "for"))}
+            if not goal:
+                raise AnalysisError(f"{fn.short}: statement of `{unparse(node)[:40]}` not found in the CFG")
+
+            def rebinds_fresh(nd, name=name):
+                x = nd.ast
+                if nd.kind != "stmt" or not isinstance(x, ast.Assign) or not any(isinstance(t, ast.Name) and t.id == name for t in x.targets):
+                    return False
+                v = x.value
+                return isinstance(v, (ast.List, ast.Dict, ast.Set, ast.ListComp, ast.DictComp, ast.SetComp)) or (
+                    isinstance(v, ast.Call) and (dotted(v.func) or "").split(".")[-1] in _FRESH) or (
+                    isinstance(v, ast.Call) and call_attr(v) == "copy")
+            path = cfg.find_path(cfg.entry, lambda nd: nd.id in goal, kinds=("n",), blocked=rebinds_fresh)
+            out.append(inst("ARG-NOT-MUTATED", VIOLATION if path is not None else HOLDS, fn, f"{fn.short}[{name} written in place]",
+                            f"`{unparse(node)[:60]}` is only reached after `{name}` was rebound to a fresh collection" if path is None else
+                            f"`{unparse(node)[:60]}` writes into the object the caller passed as `{name}` on the path {' '.join(cfg.describe_path(path)[-4:])}: "
+                            f"the caller's own list / dict is changed, and the next query built from the same object is built from the changed one "
+                            f"(a predicate-form term in a reused list of selected variables has lost its conditions)", line=node.lineno))
+    if n_fn < 4:
+        raise AnalysisError("query-building functions of entity / predicate not found")
+    return out
+
